@@ -842,6 +842,10 @@ fn reschedule<'a>(sh: &'a Shared, mut g: MutexGuard<'a, Sched>, me: TaskId) -> M
         g.aborted = Some(Abort::StepBound(msg));
         g.wake_all();
         drop(g);
+        if std::thread::panicking() {
+            // a Drop impl of an unwinding task reached a yield point: no second panic
+            return sh.lock();
+        }
         unwind_abort();
     }
     if g.stop_active && g.step > g.stop_deadline {
@@ -853,6 +857,10 @@ fn reschedule<'a>(sh: &'a Shared, mut g: MutexGuard<'a, Sched>, me: TaskId) -> M
         g.aborted = Some(Abort::StepBound(msg));
         g.wake_all();
         drop(g);
+        if std::thread::panicking() {
+            // a Drop impl of an unwinding task reached a yield point: no second panic
+            return sh.lock();
+        }
         unwind_abort();
     }
     g.wake_expired();
@@ -865,6 +873,10 @@ fn reschedule<'a>(sh: &'a Shared, mut g: MutexGuard<'a, Sched>, me: TaskId) -> M
         g.aborted = Some(Abort::Deadlock(msg));
         g.wake_all();
         drop(g);
+        if std::thread::panicking() {
+            // a Drop impl of an unwinding task reached a yield point: no second panic
+            return sh.lock();
+        }
         unwind_abort();
     }
     let next = g.choose(&cands);
@@ -883,6 +895,9 @@ fn reschedule<'a>(sh: &'a Shared, mut g: MutexGuard<'a, Sched>, me: TaskId) -> M
         };
         if g.aborted.is_some() {
             drop(g);
+            if std::thread::panicking() {
+                return sh.lock();
+            }
             unwind_abort();
         }
         if g.current == me {
@@ -1204,13 +1219,23 @@ pub(crate) fn chan_new(sh: &Arc<Shared>, me: TaskId, cap: Option<usize>) -> Chan
     id
 }
 
+#[allow(dead_code)]
 pub(crate) enum SendOutcome {
+    Full,
     Sent,
     Disconnected,
 }
 
 /// `push` is called with the scheduler lock held, exactly when the message is enqueued.
 pub(crate) fn chan_send(sh: &Arc<Shared>, chan: ChanId, push: impl FnOnce()) -> SendOutcome {
+    chan_send_full(sh, chan, true, push, |_| {})
+}
+
+/// `blocking = false` is `try_send` (`SendOutcome::Full` instead of waiting).
+/// `withdraw(i)` is called with the scheduler lock held when a rendezvous send (capacity 0)
+/// fails because the receiver went away while the message was still waiting to be taken: it
+/// must take the payload at index `i` of the payload queue back.
+pub(crate) fn chan_send_full(sh: &Arc<Shared>, chan: ChanId, blocking: bool, push: impl FnOnce(), withdraw: impl FnOnce(usize)) -> SendOutcome {
     let me = match current() {
         Some(x) if Arc::ptr_eq(&x.0, sh) => x.1,
         _ => {
@@ -1231,10 +1256,18 @@ pub(crate) fn chan_send(sh: &Arc<Shared>, chan: ChanId, push: impl FnOnce()) -> 
             g.log(me, Ev::SendFail { chan });
             return SendOutcome::Disconnected;
         }
+        let rendezvous = g.chans[chan].cap == Some(0);
         let full = match g.chans[chan].cap {
-            Some(c) => g.chans[chan].q.len() >= c.max(1),
+            // rendezvous: a blocking send may always offer its message (and then waits until it
+            // is taken); a try_send succeeds only if the receiver is waiting right now
+            Some(0) => !blocking && !(g.chans[chan].q.is_empty() && g.tasks.iter().any(|t| t.state == TState::BlockedRecv(chan) || matches!(t.state, TState::BlockedRecvUntil(c, _) if c == chan))),
+            Some(c) => g.chans[chan].q.len() >= c,
             None => false,
         };
+        if full && !blocking {
+            g.log(me, Ev::User { tag: "try-send-full", vals: vec![chan as i64] });
+            return SendOutcome::Full;
+        }
         if !full {
             let seq = {
                 let ch = &mut g.chans[chan];
@@ -1270,6 +1303,26 @@ pub(crate) fn chan_send(sh: &Arc<Shared>, chan: ChanId, push: impl FnOnce()) -> 
             for t in g.tasks.iter_mut() {
                 if t.state == TState::BlockedRecv(chan) || matches!(t.state, TState::BlockedRecvUntil(c, _) if c == chan) {
                     t.state = TState::Runnable;
+                }
+            }
+            if rendezvous && blocking {
+                // the send returns only once the message has been taken; if the receiver goes
+                // away first, the message comes back with the error
+                let mut withdraw = Some(withdraw);
+                loop {
+                    let pos = g.chans[chan].q.iter().position(|&(t, s)| t == me && s == seq);
+                    let Some(pos) = pos else { return SendOutcome::Sent };
+                    if !g.chans[chan].receiver_alive || g.aborted.is_some() {
+                        g.chans[chan].q.remove(pos);
+                        if let Some(w) = withdraw.take() {
+                            w(pos);
+                        }
+                        g.log(me, Ev::SendFail { chan });
+                        return SendOutcome::Disconnected;
+                    }
+                    g.tasks[me].state = TState::BlockedSend(chan);
+                    g = reschedule(sh, g, me);
+                    g.tasks[me].state = TState::Runnable;
                 }
             }
             return SendOutcome::Sent;
